@@ -102,8 +102,28 @@ fn book<F: Corpus>(
 /// random scripts with seeded schedules.
 pub fn explore<F: Corpus>(prop: &str, test: &str, seed: u64, thorough: bool, fuzz_budget: usize) -> Explored {
     let t_build = std::time::Instant::now();
-    let (sim, ports) = F::build();
     let mut part = Partial::default();
+    // Smoke run: if the very first script already fails inside the harness/simulator plumbing (observed when the
+    // simulator handed this process a dylib built for another flow by a concurrent build in the shared trybuild
+    // directory), rebuild instead of reporting 10^4 identical harness errors. A program under test that really
+    // breaks the first script still breaks it after the rebuilds and is reported as before.
+    let mut attempt = 0;
+    let (sim, ports) = loop {
+        let (sim, ports) = F::build();
+        let ok = match F::exhaustive_scripts(thorough).into_iter().next() {
+            Some(script) => run_exhaustive(&sim, async || {
+                let _ = F::drive(ports, &script).await;
+            })
+            .is_ok(),
+            None => true,
+        };
+        if ok || attempt >= 2 {
+            break (sim, ports);
+        }
+        attempt += 1;
+        part.count(&format!("{}_rebuilds_after_failed_smoke_run", F::NAME));
+        std::thread::sleep(std::time::Duration::from_secs(5));
+    };
     part.count_n(&format!("{}_ms_build", F::NAME), t_build.elapsed().as_millis() as u64);
     let mut failing = 0u64;
     let mut exhaustive_complete = true;
